@@ -664,6 +664,74 @@ def r05_4b(prog, rep, rid='R05.4b'):
 # ------------------------------------------------------------------------------
 # R05.5  FAILED / CANCELED are handed back to the client
 #
+def _r05_5_recorded(prog, K, f, stmt, depth=0, mapping=None):
+    """{(key, text of the value)}: the items a statement records on the
+    things: `X[key] = v`, `X.update({key: v, ..})` / `X.update(key=v)` (also
+    inside a comprehension), and the same in a method of the class it calls
+    (statements of the callee that are not under a condition; parameters are
+    replaced by the arguments of the call)"""
+    def text(v):
+        return _r05_5_text(v, mapping) if mapping else unparse(v)
+    out = set()
+    for n in walk(stmt):
+        if isinstance(n, (ast.Assign, ast.AnnAssign)) and \
+                getattr(n, 'value', None) is not None:
+            for t in (n.targets if isinstance(n, ast.Assign) else [n.target]):
+                if isinstance(t, ast.Subscript) and \
+                        isinstance(t.slice, ast.Constant):
+                    out.add((t.slice.value, text(n.value)))
+        if not isinstance(n, ast.Call):
+            continue
+        if isinstance(n.func, ast.Attribute) and n.func.attr == 'update':
+            if len(n.args) == 1 and isinstance(n.args[0], ast.Dict):
+                for k, v in zip(n.args[0].keys, n.args[0].values):
+                    if isinstance(k, ast.Constant):
+                        out.add((k.value, text(v)))
+            for kw in n.keywords:
+                if kw.arg is not None:
+                    out.add((kw.arg, text(kw.value)))
+            continue
+        if depth >= 2:
+            continue
+        h = prog.resolve_call(f, n, K)
+        if h is None or h is f or h.cls is None or h.name == f.name:
+            continue
+        a = h.node.args
+        pos = [x.arg for x in a.posonlyargs + a.args]
+        if pos and pos[0] in ('self', 'cls') and not any(
+                unparse(d) == 'staticmethod' for d in h.node.decorator_list):
+            pos = pos[1:]
+        bound = {}
+        for i, x in enumerate(n.args):
+            if i < len(pos) and not isinstance(x, ast.Starred):
+                bound[pos[i]] = x
+        for kw in n.keywords:
+            if kw.arg is not None:
+                bound[kw.arg] = kw.value
+        if mapping:
+            bound = {k: ast.parse(text(v), mode='eval').body
+                     for k, v in bound.items()}
+        hg = cfg_of(h)
+        for hn in hg.stmt_nodes():
+            if hn.kind != 'stmt' or hn.ast is None or \
+                    isinstance(hn.ast, (ast.FunctionDef, ast.ClassDef)) or \
+                    guards(hg, hn.id):
+                continue
+            out |= _r05_5_recorded(prog, K, h, hn.ast, depth + 1, bound)
+    return out
+
+
+def _r05_5_text(v, mapping):
+    import copy
+    v = copy.deepcopy(v)
+
+    class Sub(ast.NodeTransformer):
+        def visit_Name(self, node):
+            return copy.deepcopy(mapping[node.id]) if node.id in mapping \
+                else node
+    return unparse(Sub().visit(v))
+
+
 def r05_5(prog, rep, rid='R05.5'):
     rep.rule(rid, 'advance() to FAILED/CANCELED records target_state and is '
              'always published, never pushed; the agent side hands the full '
@@ -700,14 +768,14 @@ def r05_5(prog, rep, rid='R05.5'):
         for n in g.stmt_nodes():
             if n.kind != 'stmt' or (T.id, 'T') not in guards(g, n.id):
                 continue
+            if isinstance(n.ast, (ast.FunctionDef, ast.ClassDef)):
+                continue
             if isinstance(n.ast, ast.Assign):
                 for t in n.ast.targets:
                     if isinstance(t, ast.Name) and t.id in want and \
                             isinstance(n.ast.value, ast.Constant):
                         got[t.id] = n.ast.value.value
-                    if isinstance(t, ast.Subscript) and \
-                            isinstance(t.slice, ast.Constant):
-                        keys.add((t.slice.value, unparse(n.ast.value)))
+            keys |= _r05_5_recorded(prog, K, f, n.ast)
         rep.check(got == want, rid, f, '%s.advance forces publish=True, '
                   'push=False for FAILED/CANCELED' % K.name,
                   construct='%s:flags' % K.name, message='%s.advance does not '
@@ -2177,6 +2245,38 @@ def _same(ef, edom, ekey_s, dom, ks, pool, EL, RL):
 
 
 # ------------------------------------------------------------------------------
+# R05.9  exactly ONE final state reaches the application
+#
+# On the client the final state of a task is arbitrated by the notification
+# path of C06: `_task_state_progress` answers a late / contradictory final
+# state with nothing to replay (or raises), `_update_tasks` replays only what
+# it answers, and every other caller of `Task._update` is, for each final
+# current state, excluded by its own guards or refused by `Task._update`.
+# The two rules which decide that (R06.5: the replay takes its states from the
+# progress function only; R06.6: a final state is never left on the direct
+# update path) are re-evaluated here: a change that lets a second final state
+# through (CANCELED, then FAILED for the same task) breaks "every task reaches
+# exactly one final state" of this property just as it breaks the state model.
+#
+def r05_9(prog, rep, rid='R05.9'):
+    from . import c06
+    errors = []
+    for fn in (c06.r06_5, c06.r06_6):
+        try:
+            fn(prog, rep, rid=rid)
+        except AnalysisError as e:
+            errors.append(e)
+    rep.rule(rid, 'a task reaches exactly one final state on the client: the '
+             'states replayed by _update_tasks are those answered by '
+             '_task_state_progress (which arbitrates between contradictory '
+             'final states) and every other call of Task._update is excluded '
+             'or refused for a task that is already final (R06.5 and R06.6 '
+             're-evaluated)', minimum=7)
+    if errors:
+        raise errors[0]
+
+
+# ------------------------------------------------------------------------------
 #
 def run(prog, rep, tier):
     rep.decided = ('route table: every pushing hand-on to a non-final state '
@@ -2193,7 +2293,11 @@ def run(prog, rep, tier):
         'path (non-final hand-on only for a task whose own outcome is not '
         'DONE) and records the exception first; tasks parked in a keyed pool '
         'until component state appears are released for every key for which '
-        'that state is set.  Exactly-once '
+        'that state is set; on the client the states replayed for a '
+        'notification are those answered by the progress function (the '
+        'arbiter between contradictory final states) and no other caller of '
+        'Task._update changes a task that is already final (R05.9 = R06.5 + '
+        'R06.6 re-evaluated).  Exactly-once '
         'finishing in the executor is C07, Master._result_cb is R20.4.')
     rep.undecided = ('composition of the ten components under arbitrary '
         'message delivery orders; liveness of the pipeline as a whole.')
@@ -2208,6 +2312,7 @@ def run(prog, rep, tier):
     rep.attempt(r05_6, prog, rep)
     rep.attempt(r05_7, prog, rep)
     rep.attempt(r05_8, prog, rep)
+    rep.attempt(r05_9, prog, rep)
     # exactly one final state when process exit and cancel coincide
     from .c07 import r07_2
     rep.attempt(r07_2, prog, rep, rid='R07.2')
@@ -2321,7 +2426,25 @@ MUTATIONS = [
         (_TS, "                self._update_pilot_states(pilots)\n\n                for pilot in pilots:\n\n                    pid = pilot['uid']\n\n                    # if we have any early_bound tasks waiting for this pilots,\n                    # advance them now\n                    early_tasks = self._early.get(pid)\n                    if early_tasks:\n\n                        for task in early_tasks:\n                            self._assign_pilot(task, pilot)\n\n                        self.advance(early_tasks, rps.TMGR_STAGING_INPUT_PENDING,\n                                     publish=True, push=True)\n\n                        # these tasks are on their way now: forget them, or\n                        # a pilot which gets removed and added again would\n                        # receive them a second time\n                        del self._early[pid]\n", '                self._update_pilot_states(pilots)\n')]),
 ]
 
+_R055_AGENT = "                thing['target_state'] = state\n                thing['control']      = 'tmgr_pending'\n                thing['$all']         = True\n"
+_R055_FLAGS = "            publish = True\n            push    = False\n\n        super().advance(things=things, state=state, publish=publish, push=push,\n                        qname=qname, ts=ts, fwd=fwd, prof=prof)\n\n\n# ------------------------------------------------------------------------------\n#\nclass AgentComponent"
+
+MUTATIONS += [
+    dict(name='R05.5 hand-back as one update() call that forgets $all', rules=('R05.5',), edits=[
+        (_U, _R055_AGENT, "                thing.update({'target_state': state,\n                              'control'     : 'tmgr_pending'})\n")]),
+    dict(name='R05.5 update() records the old state as target_state', rules=('R05.5',), edits=[
+        (_U, _R055_AGENT, "                thing.update({'target_state': thing['state'],\n                              'control'     : 'tmgr_pending',\n                              '$all'        : True})\n")]),
+]
+
 SILENT = [
+    dict(name='R05.5 hand-back recorded with one update() call (seed C16-r6)', edits=[
+        (_U, _R055_AGENT, "                thing.update({'target_state': state,\n                              'control'     : 'tmgr_pending',\n                              '$all'        : True})\n")]),
+    dict(name='R05.5 flags forced by a tuple assignment, update() with keywords', edits=[
+        (_U, "            for thing in things:\n                thing['target_state'] = state\n\n            publish = True", "            for thing in things:\n                thing.update(target_state=state)\n\n            publish = True"),
+        (_U, _R055_FLAGS, _R055_FLAGS.replace("            publish = True\n            push    = False\n", "            publish, push = True, False\n"))]),
+    dict(name='R05.5 hand-back in a comprehension over a helper method', edits=[
+        (_U, "            for thing in things:\n" + _R055_AGENT, "            [self._hand_back(thing, state) for thing in things]\n"),
+        (_U, "    # agent side state advances are forwarded by default (fwd=True)\n", "    @staticmethod\n    def _hand_back(task, final):\n        task['$all'] = True\n        task.update({'target_state': final, 'control': 'tmgr_pending'})\n\n    # agent side state advances are forwarded by default (fwd=True)\n")]),
     dict(name='exit code test as truthiness', edits=[
         (_P, "                if exit_code == 0:\n                    # The task finished cleanly", "                if not exit_code:\n                    # The task finished cleanly")]),
     dict(name='worker handler catches BaseException', edits=[
@@ -2373,4 +2496,57 @@ SILENT = [
         (_TS, "                    self._pilots[pid]['role']  = ADDED\n                    self._pilots[pid]['pilot'] = pilot\n", "                    entry = self._pilots[pid]\n                    entry['role']  = ADDED\n                    entry['pilot'] = pilot\n")]),
     dict(name='R05.8 parking test on the cached entry, early-continue form', edits=[
         (_TS, "                    pilot = self._pilots.get(pid, {}).get('pilot')\n                    if pilot:\n                        self._assign_pilot(task, pilot)\n                        self.advance(task, rps.TMGR_STAGING_INPUT_PENDING,\n                                     publish=True, push=True)\n\n                    else:\n", "                    entry = self._pilots.get(pid)\n                    if entry and entry['pilot']:\n                        self._assign_pilot(task, entry['pilot'])\n                        self.advance(task, rps.TMGR_STAGING_INPUT_PENDING,\n                                     publish=True, push=True)\n                        continue\n\n                    if True:\n")]),
+]
+
+# R05.9 (R06.5 / R06.6 re-evaluated): the variants of the C06 module which
+# concern the number of final states a task reaches
+from . import c06 as _c06                                       # noqa: E402
+
+_TM = 'task_manager.py'
+
+MUTATIONS += [
+    dict(name='R05.9 FAILED / CANCELED notifications skip the progress function (seed C05-f)', rules=('R05.9',), edits=[
+        (_TM, _c06._PROGRESS,
+         "                    if target in [rps.CANCELED, rps.FAILED]:\n"
+         "                        # no need to dig out the state progression\n"
+         "                        passed = [target]\n\n"
+         "                    else:\n"
+         "                        target, passed = rps._task_state_progress(uid, current,\n"
+         "                                                                  target)\n")],
+         note='CANCELED then FAILED for one task (cancel raced a failing cancel path): two final callbacks, Task.state changes from CANCELED to FAILED'),
+    dict(name='R05.9 only FAILED notifications skip the progress function, test on the notification', rules=('R05.9',), edits=[
+        (_TM, _c06._PROGRESS,
+         "                    target, passed = rps._task_state_progress(uid, current,\n"
+         "                                                              target)\n\n"
+         "                    if target == rps.CANCELED:\n"
+         "                        passed = passed[-1:]\n\n"
+         "                    if task_dict['state'] == rps.FAILED:\n"
+         "                        passed = [rps.FAILED]\n")]),
+    dict(name='R05.9 pilot-death callback fails tasks that are already CANCELED (seed C06-c)', rules=('R05.9',), edits=[
+        (_TM, _c06._GUARD, ""), (_TM, _c06._CALL, _c06._CALL_CHANGED)],
+         note='Task._update refuses only DONE and FAILED: a CANCELED task becomes FAILED'),
+    dict(name='R05.9 pilot-death callback skips DONE / FAILED tasks only', rules=('R05.9',), edits=[
+        (_TM, _c06._GTEST, "if task.state in [rps.DONE, rps.FAILED]:\n                        continue")]),
+]
+
+SILENT += [
+    dict(name='R05.9 site: replayed list initialised before the try, copied after the progress call', edits=[
+        (_TM, "                try:\n                    target, passed = rps._task_state_progress",
+              "                passed = []\n                try:\n                    target, passed = rps._task_state_progress"),
+        (_TM, "                        passed = passed[-1:]\n", "                        passed = passed[-1:]\n\n                    passed = list(passed)\n")]),
+    dict(name='R05.9 site: truncation test as a chain of ==, renamed result', edits=[
+        (_TM, _c06._PROGRESS,
+         "                    reached, passed = rps._task_state_progress(uid, current,\n"
+         "                                                               target)\n\n"
+         "                    if reached == rps.CANCELED or reached == rps.FAILED:\n"
+         "                        passed = passed[len(passed) - 1:]\n")]),
+    dict(name='R05.9 site: truncation removed (intermediate states replayed for FAILED / CANCELED too)', edits=[
+        (_TM, "                    if target in [rps.CANCELED, rps.FAILED]:\n                        # don't replay intermediate states\n                        passed = passed[-1:]\n", "")],
+         note='changes which states are announced, not the number of final states'),
+    dict(name='R05.9 site: pilot-death guard hoisted into a local / merged with the pilot test', edits=[
+        (_TM, "                    if task.pilot != pid:\n                        continue\n\n" + _c06._GUARD,
+              "                    tstate = task.state\n                    if task.pilot != pid or tstate in rps.FINAL:\n                        continue\n\n")]),
+    dict(name='R05.9 sites: all of FINAL refused in Task._update instead of in the caller', edits=[
+        (_TM, _c06._GUARD, ""), (_TM, _c06._CALL, _c06._CALL_CHANGED),
+        ('task.py', _c06._STICKY, "        if current in rps.FINAL:")]),
 ]
